@@ -22,6 +22,7 @@ import tempfile
 
 ROOT = os.path.dirname(os.path.dirname(os.path.abspath(__file__)))
 REPO = "/repo"
+CHECKS = ROOT
 FILES = {
     "fastavro/io/binary_encoder.py": ["C01", "C02", "C04"],
     "fastavro/io/binary_decoder.py": ["C01", "C03", "C06", "C05"],
@@ -149,6 +150,14 @@ def mutated_source(path, site):
 
 
 def run_one(job):
+    try:
+        return _run_one(job)
+    except Exception as e:  # noqa: a tool problem must not end the whole sample
+        return {"idx": job[0], "file": job[1], "kind": job[2][0], "mid": job[2][1], "variant": job[2][2], "function": job[2][3],
+                "line": job[2][4], "status": "tool-error", "error": repr(e)[:300]}
+
+
+def _run_one(job):
     idx, path, site, checks, examples = job
     src = mutated_source(path, site)
     res = {"idx": idx, "file": path, "kind": site[0], "mid": site[1], "variant": site[2], "function": site[3], "line": site[4]}
@@ -186,11 +195,11 @@ def run_one(job):
             return res
         killed = []
         for chk in checks:
-            cmd = [os.path.join(ROOT, "check"), chk, "--tier", "quick"]
+            cmd = [os.path.join(CHECKS, "check"), chk, "--tier", "quick"]
             if examples:
                 cmd += ["--examples", str(examples)]
             try:
-                c = subprocess.run(cmd, cwd=ROOT, env=dict(os.environ, FASTAVRO_REPO=wt), capture_output=True, text=True, timeout=1500)
+                c = subprocess.run(cmd, cwd=CHECKS, env=dict(os.environ, FASTAVRO_REPO=wt), capture_output=True, text=True, timeout=1500)
                 rc = c.returncode
                 out = c.stdout
             except subprocess.TimeoutExpired:
@@ -211,6 +220,7 @@ def run_one(job):
 
 
 def main():
+    global REPO
     ap = argparse.ArgumentParser()
     ap.add_argument("--sample", type=int, default=50)
     ap.add_argument("--seed", type=int, default=1)
@@ -218,9 +228,50 @@ def main():
     ap.add_argument("--files")
     ap.add_argument("--out", default="run")
     ap.add_argument("--examples", type=int, default=0)
+    ap.add_argument("--diff", help="jsonl of an earlier run: print the source diff of each survivor and exit")
     ap.add_argument("--rerun", help="jsonl of an earlier run: re-run its survivors (matched by file, kind, variant, line)")
     args = ap.parse_args()
+    if args.diff:
+        import difflib
+        for l in open(args.diff):
+            r = json.loads(l)
+            if r["status"] != "survived":
+                continue
+            site = (r["kind"], r["mid"], r["variant"], r["function"], r["line"])
+            a = ast.unparse(ast.parse(open(os.path.join(REPO, r["file"])).read())).splitlines()
+            print(f"=== {r['file']} {r['function']} line {r['line']} {r['kind']} {r['variant']}")
+            try:
+                b = mutated_source(r["file"], site).splitlines()
+            except Exception:
+                print("    (the source changed since that run)")
+                continue
+            for d in difflib.unified_diff(a, b, lineterm="", n=2):
+                if not d.startswith(("---", "+++")):
+                    print("   ", d)
+        return
     files = args.files.split(",") if args.files else list(FILES)
+    # work from a private snapshot so that edits to /repo while the sample runs cannot shift the sites
+    snap = tempfile.mkdtemp(prefix="vmutsnap.")
+    for item in ("fastavro", "tests", "pytest.ini", "setup.cfg", "pyproject.toml", "setup.py", "README.md"):
+        src = os.path.join(REPO, item)
+        if os.path.isdir(src):
+            shutil.copytree(src, os.path.join(snap, item), ignore=shutil.ignore_patterns("__pycache__", "*.pyc", "*.c", "*.pyx", "*.so"))
+        elif os.path.exists(src):
+            shutil.copy(src, snap)
+    REPO = snap
+    # ... and from a private copy of the checks, so that work on /verif does not disturb a running sample
+    global CHECKS
+    vsnap = tempfile.mkdtemp(prefix="vmutverif.")
+    CHECKS = os.path.join(vsnap, "verif")
+    shutil.copytree(ROOT, CHECKS, ignore=shutil.ignore_patterns("__pycache__", ".git", "scratch", "replays", "seeded", "evidence"))
+    try:
+        _main(args, files)
+    finally:
+        shutil.rmtree(snap, ignore_errors=True)
+        shutil.rmtree(vsnap, ignore_errors=True)
+
+
+def _main(args, files):
     allsites = []
     for path in files:
         for s in sites_of(path):
